@@ -1,6 +1,7 @@
 package scen
 
 import (
+	"encoding/json"
 	"fmt"
 	"net/netip"
 	"sort"
@@ -50,7 +51,9 @@ func genARPSpoof(prop string, seed uint64, tier string) Scenario {
 			sc.Ops = append(sc.Ops, Op{K: "unhunt", T: r.n(napi), M: m, D: r.weighted([]int{3, 2, 2, 2, 2, 2, 3, 2, 1})})
 		case 2:
 			// S: whose address the sender claims (0 its own, else another target's: an address conflict)
-			sc.Ops = append(sc.Ops, Op{K: "arpreq", T: 10 + m, M: m, I: r.weighted([]int{6, 2, 1}), S: r.pick(0, 0, 0, 1, 2), D: r.n(7)})
+			// X: the Ethernet source differs from the ARP sender hardware address (a relayed or crafted
+			// request): 1 = sent through another target's NIC, 2 = the sender field names another target
+			sc.Ops = append(sc.Ops, Op{K: "arpreq", T: 10 + m, M: m, I: r.weighted([]int{6, 2, 1}), S: r.pick(0, 0, 0, 1, 2), D: r.n(7), X: r.pick(0, 0, 0, 0, 1, 2)})
 		case 3:
 			sc.Ops = append(sc.Ops, Op{K: "probe", T: 10 + m, M: m, I: r.n(5), D: r.n(6)})
 		case 4:
@@ -117,7 +120,14 @@ func runARPSpoof(e *exec) {
 			} else if o.I == 2 {
 				tpa = u.HostIP
 			}
-			a.inject(i, "arpreq", 0, fb.Eth(fb.Broadcast, mac, 0x0806, fb.ARP(1, mac, targetIP(o.M+o.S), fb.MAC{}, tpa)))
+			ethSrc, sha := mac, mac
+			switch o.X {
+			case 1:
+				ethSrc = targetMAC(o.M + 1)
+			case 2:
+				sha = targetMAC(o.M + 1)
+			}
+			a.inject(i, "arpreq", 0, fb.Eth(fb.Broadcast, ethSrc, 0x0806, fb.ARP(1, sha, targetIP(o.M+o.S), fb.MAC{}, tpa)))
 		case "probe":
 			a.inject(i, "probe", 0, fb.Eth(fb.Broadcast, mac, 0x0806, fb.ARP(1, mac, netip.MustParseAddr("0.0.0.0"), fb.MAC{}, probeAddr(o.M, o.I))))
 		case "offer":
@@ -141,6 +151,24 @@ func runARPSpoof(e *exec) {
 	closeInv, tClose := simrt.Seq(), now()
 	w.ARP.Close()
 	closeRet := simrt.Seq()
+	// Forging after Close is judged as it happens, by the wire monitor: a loop that ignores Close
+	// may flood the wire and the run would never reach the oracle below.
+	own0 := refdec.MAC(u.MACs[world.MOwn])
+	noStalls := e.sc.Cfg.StallDen == 0 // a stalled loop may be past its check when Close returns
+	c.react = func(c *conc, o world.Out) {
+		a := o.F.ARP
+		if noStalls && a != nil && a.SHA == own0 && a.SPA == u.RouterIP && o.Seq > closeRet && time.Duration(o.Time) > tClose {
+			e.violate("C13.close", "forged-frame-after-close", fmt.Sprintf("forged frame to %s at %v after Close returned at %v", o.F.Dst, time.Duration(o.Time), tClose))
+			b, _ := json.Marshal(e.finish())
+			simrt.Result(b)
+		}
+	}
+	if e.sc.Seed%2 == 0 {
+		// a caller that hunts after Close gets nothing started
+		simrt.Sleep(int64(time.Second))
+		w.ARP.StartHunt(packet.Addr{MAC: world.HW(targetMAC(0)), IP: targetIP(0)})
+		e.probe("starthunt_after_close")
+	}
 	simrt.Sleep(int64(2*arpCycle + time.Second))
 	simrt.Settle()
 	leaked := libraryTasksExcept(sessionSites)
@@ -238,6 +266,13 @@ func runARPSpoof(e *exec) {
 				lastStopRet = -1
 				startedAfterStop = false
 			case "stop-ret":
+				// a StartHunt of this MAC that overlaps this StopHunt in time may have taken effect
+				// after it: the order of overlapping calls is not defined
+				for _, y := range ev {
+					if y.kind == "start" && y.rec.Inv < x.rec.Ret && x.rec.Inv < y.rec.Ret {
+						startedAfterStop = true
+					}
+				}
 				if !startedAfterStop {
 					lastStopRet = x.t
 				}
@@ -374,13 +409,21 @@ func runARPSpoof(e *exec) {
 				if end-last > arpCycle {
 					e.violate("C13.period", "gap-longer-than-one-cycle", fmt.Sprintf("hunted host %s got no forged frame for %v before %v (events: %s)", mac, end-last, end, evString(ev)))
 				}
-				if max := int((end-x.rec.TInv)/arpCycle) + 1; n > max {
+				// One loop sends one frame per cycle. A loop stopped less than a cycle before this
+				// StartHunt may not have noticed yet: it finds the MAC in the list again, sends one
+				// last frame, then sees its own stop signal and leaves - one extra frame per such
+				// StopHunt, once, is not a second loop.
+				max := int((end-x.rec.TInv)/arpCycle) + 1
+				recentStops := 0
+				for _, y := range ev[:i] {
+					if y.kind == "stop-inv" && x.t-y.t <= arpCycle {
+						recentStops++
+					}
+				}
+				if n > max+recentStops {
 					key := "more-than-one-frame-per-cycle"
-					for _, y := range ev[:i] {
-						if y.kind == "stop-inv" && x.t-y.t <= arpCycle {
-							key += ":hunted-again-within-one-cycle-of-stophunt"
-							break
-						}
+					if recentStops > 0 {
+						key += ":hunted-again-within-one-cycle-of-stophunt"
 					}
 					e.violateSoft("C13.rate", key, fmt.Sprintf("host %s got %d periodic forged frames in %v (at most %d for one loop; events: %s)", mac, n, end-x.rec.TInv, max, evString(ev)))
 				}
